@@ -12,9 +12,23 @@ enumerates `0..node_count` and maps the numbers back with `from_index`, and whet
 (or the header of the `impl` block the function is in) restricts the graph to compactly indexed types.  Theorems/C07.lean proves from this table that no scratch
 container can be indexed out of bounds on a graph with vacant indices.
 
-If a source shape is not recognised the script writes a definition that makes the theorem fail and exits 1.
+Outcomes (tools/tielib.py; DESIGN.md Appendix E).  One item per function that owns scratch containers
+(`scratch.<file>::<fn>`), one for the Csr cut-off, the items of the per-property extractors tools/extract_*.py:
+  recognised / changed   the rows (definitions) are regenerated and the theorems are checked against them
+  unrecognised           a source SHAPE the extractor cannot translate (a size expression it cannot classify, a UnionFind
+                         that is not bound by a `let`, an index it cannot trace to `to_index`): the item keeps its recorded
+                         baseline rows, `extract: UNRECOGNISED <item> (<file>:<fn>): falling back to the correspondence
+                         check` is printed, exit code 0; ./check widens the correspondence search for the properties concerned
+  broken                 not a shape problem — a file is missing, a function that must own a container has none any more, a
+                         UnionFind / Vf2State vector disappeared: `extractionProblems` is non-empty (the theorem fails), exit 1
+The outcome of every item is written to work/extract_status.json ({item: {status, where, props, detail}}).
+
+usage: tools/extract.py [--write-baseline]
 """
-import os, re, sys, glob
+import os, re, sys, glob, json
+sys.path.insert(0, os.path.dirname(os.path.abspath(__file__)))
+from tielib import Tie, Broken, parse_status_lines
+from rustexpr import Unrecognised
 
 REPO = os.environ.get("PG_REPO", "/repo")
 ROOT = os.path.dirname(os.path.dirname(os.path.abspath(__file__)))
@@ -155,22 +169,50 @@ def bracket_contents(body, var):
         res.append(body[i:j - 1])
     return res
 
-def main():
+ALLOC_SITE = re.compile(r"\bvec!\[|\bFixedBitSet::with_capacity\(|\.\s*resize\(|\bUnionFind\s*(?:::\s*<[^>]*>\s*)?::\s*new\s*\(")
+
+def vec_macro_size(body, start):
+    """body[start] is just after `vec![`: the size part of `vec![elem; size]` or None"""
+    inner, _ = balanced(body, start, "[", "]")
+    d, cut = 0, -1
+    for k, c in enumerate(inner):
+        if c in "[(": d += 1
+        elif c in "])": d -= 1
+        elif c == ";" and d == 0: cut = k
+    return inner[cut + 1:] if cut >= 0 else None
+
+def index_by_to_index(c, text, aliases):
+    """is the index expression `c` computed by to_index / .index() — directly, through a closure alias, or through a local
+    that is bound (anywhere in `text`) to such an expression?"""
+    cands = [c]
+    for v in set(re.findall(r"\b[A-Za-z_][A-Za-z0-9_]*\b(?!\s*[(!:.])", c)):
+        cands += [d.group(1) for d in re.finditer(r"\b%s\s*(?::[^=;]+)?=\s*([^;]+);" % re.escape(v), text)]
+        cands += [d.group(0) for d in re.finditer(r"\blet\s*\([^)]*\b%s\b[^)]*\)\s*=\s*[^;]+;" % re.escape(v), text)]
+    for cc in cands:
+        if "to_index(" in cc or ".index()" in cc or any(re.search(r"\b%s\(" % a, cc) for a in aliases):
+            return True
+    return False
+
+def scan():
+    """-> (order [(rel, fn)], rows {(rel, fn): [row]}, shape {(rel, fn): [msg]}, broken [msg], sites {(rel, fn): n}, nfuncs)"""
     files = sorted(glob.glob(os.path.join(REPO, "src", "algo", "*.rs"))) + [
         os.path.join(REPO, "src", "visit", "traversal.rs"), os.path.join(REPO, "src", "visit", "dfsvisit.rs")]
-    rows = []
-    problems = []
+    order, rows_by, shape, broken, sites = [], {}, {}, [], {}
     nfuncs = 0
+    def add(key, row):
+        if key not in rows_by:
+            rows_by[key] = []; order.append(key)
+        rows_by[key].append(row)
     for f in files:
         if not os.path.exists(f):
-            problems.append("missing " + f); continue
+            broken.append("missing " + f); continue
         src = strip_comments(open(f).read())
         rel = os.path.relpath(f, os.path.join(REPO, "src"))
         impls = impl_blocks(src)
-        n_uf_text = len(re.findall(r"\bUnionFind\s*(?:::\s*<[^>]*>\s*)?::\s*new\s*\(", src))
-        n_uf_seen = 0
         for name, sig, body, pos in functions(src):
             nfuncs += 1
+            key = (rel, name)
+            sites[key] = sites.get(key, 0) + len(ALLOC_SITE.findall(body))
             compact = bool(re.search(r"NodeCompactIndexable|:\s*&?(?:mut\s+)?(?:'\w+\s+)?(?:Graph|List|UnweightedList|DiGraph|UnGraph)\s*<", sig))
             # a method: the bounds of the enclosing `impl` block(s) count as well
             impl_compact = any(a <= pos <= b and "NodeCompactIndexable" in h for a, b, h in impls)
@@ -178,48 +220,35 @@ def main():
             aliases = to_index_aliases(body)
             allocs = []
             for m in re.finditer(r"\blet\s+(?:mut\s+)?([A-Za-z_][A-Za-z0-9_]*)\s*(?::[^=;]+)?=\s*(?:Some\()?vec!\[", body):
-                i = m.end(); depth = 1; j = i
-                while j < len(body) and depth:
-                    if body[j] == "[": depth += 1
-                    elif body[j] == "]": depth -= 1
-                    j += 1
-                inner = body[i:j - 1]
-                # vec![elem; size]  (elem may itself be vec![..; ..])
-                d, cut = 0, -1
-                for k, c in enumerate(inner):
-                    if c in "[(": d += 1
-                    elif c in "])": d -= 1
-                    elif c == ";" and d == 0: cut = k
-                if cut >= 0:
-                    allocs.append((m.group(1), inner[cut + 1:]))
+                sz = vec_macro_size(body, m.end())
+                if sz is not None:
+                    allocs.append((m.group(1), sz))
             for m in re.finditer(r"\blet\s+(?:mut\s+)?([A-Za-z_][A-Za-z0-9_]*)\s*(?::[^=;]+)?=\s*FixedBitSet::with_capacity\(([^;]*)\);", body):
                 allocs.append((m.group(1), m.group(2)))
             for m in re.finditer(r"\b([A-Za-z_][A-Za-z0-9_.]*)\s*\.\s*resize\(([^,]+),", body):
                 allocs.append((m.group(1).split(".")[-1], m.group(2)))
+            # the same container spelled with iterators: (0..E).map(|_| x).collect(), repeat(x).take(E).collect()
+            for m in re.finditer(r"\blet\s+(?:mut\s+)?([A-Za-z_][A-Za-z0-9_]*)\s*(?::[^=;]+)?=\s*\(\s*0\s*\.\.\s*([^)]+)\)\s*\.\s*map\(\s*\|\s*_\s*\|[^;]*\.collect(?:::<[^;]*>)?\(\)\s*;", body):
+                allocs.append((m.group(1), m.group(2)))
+            for m in re.finditer(r"\blet\s+(?:mut\s+)?([A-Za-z_][A-Za-z0-9_]*)\s*(?::[^=;]+)?=\s*(?:core::|std::)?(?:iter::)?repeat(?:_n)?\([^;]*?\.take\(([^;]*?)\)\s*\.collect(?:::<[^;]*>)?\(\)\s*;", body):
+                allocs.append((m.group(1), m.group(2)))
             for var, sz in allocs:
                 kind = classify_size(sz, body)
                 if kind == "other":
                     continue
-                by_to_index = False
-                for c in bracket_contents(body, var):
-                    cands = [c]
-                    # an index held in a local: resolve its definitions / assignments one level
-                    if re.fullmatch(r"\s*[A-Za-z_][A-Za-z0-9_]*\s*", c):
-                        v = c.strip()
-                        cands += [d.group(1) for d in re.finditer(r"\b%s\s*=\s*([^;]+);" % re.escape(v), body)]
-                    for cc in cands:
-                        if "to_index(" in cc or ".index()" in cc or any(re.search(r"\b%s\(" % a, cc) for a in aliases):
-                            by_to_index = True
-                rows.append((rel, name, var, kind, by_to_index, compact))
+                by_to_index = any(index_by_to_index(c, body, aliases) for c in bracket_contents(body, var))
+                add(key, (rel, name, var, kind, by_to_index, compact))
             # UnionFind::new(E): the "index" is every argument of union / find / equiv …; when the value is moved
             # into a struct field the uses are `self.<field>.union(..)` elsewhere in the file
+            n_uf_text = len(re.findall(r"\bUnionFind\s*(?:::\s*<[^>]*>\s*)?::\s*new\s*\(", body))
+            n_uf_seen = 0
             for m in re.finditer(r"\blet\s+(?:mut\s+)?([A-Za-z_][A-Za-z0-9_]*)\s*(?::[^=;]+)?=\s*UnionFind\s*(?:::\s*<[^>]*>\s*)?::\s*new\s*\(", body):
                 n_uf_seen += 1
                 var = m.group(1)
                 sz, _ = balanced(body, m.end())
                 kind = classify_size(sz, body)
                 if kind == "other":
-                    problems.append("%s::%s: UnionFind::new(%s): size expression not recognised" % (rel, name, sz.strip()))
+                    shape.setdefault(key, []).append("UnionFind::new(%s): size expression not recognised" % sz.strip())
                     continue
                 by_to_index = uf_args_by_to_index(body, r"\b%s" % re.escape(var), aliases)
                 uf_compact = compact
@@ -232,102 +261,196 @@ def main():
                     users = [h for a, b, h in impls if re.search(r"\.\s*%s\s*\.\s*%s" % (re.escape(fld), UF_METHODS), src[a:b])]
                     if users and not all("NodeCompactIndexable" in h for h in users):
                         uf_compact = False
-                rows.append((rel, name, var + " (UnionFind)", kind, by_to_index, uf_compact))
+                add(key, (rel, name, var + " (UnionFind)", kind, by_to_index, uf_compact))
+            if n_uf_seen != n_uf_text:
+                shape.setdefault(key, []).append("%d `UnionFind::new(` in the function but %d bound by `let x = UnionFind::new(E);`" % (n_uf_text, n_uf_seen))
             # struct-literal fields `f: vec![elem; E]` (e.g. Vf2State::new): indexed as `….f[..]` anywhere in the file
             for m in re.finditer(r"(?<![A-Za-z0-9_:])([a-z_][A-Za-z0-9_]*)\s*:\s*vec!\[", body):
                 pre = body[:m.start()].rstrip()
                 if not pre or pre[-1] not in "{,":
                     continue
-                inner, _ = balanced(body, m.end(), "[", "]")
-                d, cut = 0, -1
-                for k, c in enumerate(inner):
-                    if c in "[(": d += 1
-                    elif c in "])": d -= 1
-                    elif c == ";" and d == 0: cut = k
-                if cut < 0:
+                sz = vec_macro_size(body, m.end())
+                if sz is None:
                     continue
-                kind = classify_size(inner[cut + 1:], body)
+                kind = classify_size(sz, body)
                 if kind == "other":
                     continue
                 fld = m.group(1)
-                by_to_index = False
-                for c in bracket_contents(src, fld):
-                    if "to_index(" in c or ".index()" in c:
-                        by_to_index = True
-                rows.append((rel, name, "field " + fld, kind, by_to_index, compact))
+                by_to_index = any(index_by_to_index(c, src, ()) for c in bracket_contents(src, fld))
+                add(key, (rel, name, "field " + fld, kind, by_to_index, compact))
             # a size handed to a helper constructor (`let n = g.node_bound(); Tracker::new(n)`)
             for m in re.finditer(r"\blet\s+(?:mut\s+)?([A-Za-z_][A-Za-z0-9_]*)\s*=\s*([^;]*(?:node_count|node_bound|size_hint)\(\)[^;]*);", body):
                 v = m.group(1)
-                if re.search(r"::new\(\s*%s\s*\)|with_capacity\(\s*%s\s*\)" % (v, v), body) and not any(r[1] == name and r[0] == rel for r in rows):
-                    rows.append((rel, name, v + " (passed to a constructor)", classify_size(m.group(2), body), "to_index(" in body, compact))
+                if re.search(r"::new\(\s*%s\s*\)|with_capacity\(\s*%s\s*\)" % (v, v), body) and key not in rows_by:
+                    add(key, (rel, name, v + " (passed to a constructor)", classify_size(m.group(2), body), "to_index(" in body, compact))
+            # … or without the local (`Tracker::new(g.node_bound())`), for the functions that must own a container
+            if key not in rows_by and key in EXPECTED_FNS and "to_index(" in body:
+                m = re.search(r"::new\(\s*([A-Za-z_][A-Za-z0-9_]*\s*\.\s*(?:node_bound|node_count)\(\))\s*\)", body)
+                if m:
+                    add(key, (rel, name, "size (passed to a constructor)", classify_size(m.group(1), body), True, compact))
             # enumeration 0..node_count mapped back through from_index
             if "from_index(" in body:
                 for m in re.finditer(r"0\s*\.\.\s*([A-Za-z_][A-Za-z0-9_]*(?:\.[a-z_]+\(\))?)", body):
                     kind = classify_size(m.group(1), body)
                     if kind in ("nodeCount", "sizeHint"):
-                        rows.append((rel, name, "<range 0.." + m.group(1) + " -> from_index>", kind, True, compact))
+                        add(key, (rel, name, "<range 0.." + m.group(1) + " -> from_index>", kind, True, compact))
                         break
-        if n_uf_seen != n_uf_text:
-            problems.append("%s: %d `UnionFind::new(` in the text but %d recognised as `let x = UnionFind::new(E);`" % (rel, n_uf_text, n_uf_seen))
-    # sanity: the known allocation sites must have been seen (fail-closed against a silently blind extractor)
-    expected = [("algo/k_shortest_path.rs", "k_shortest_path"), ("algo/ford_fulkerson.rs", "ford_fulkerson"),
+    return order, rows_by, shape, broken, sites, nfuncs
+
+# functions that must own a scratch container (fail-closed against a silently blind extractor) …
+EXPECTED_FNS = [("algo/k_shortest_path.rs", "k_shortest_path"), ("algo/ford_fulkerson.rs", "ford_fulkerson"),
                 ("algo/spfa.rs", "spfa"), ("algo/bellman_ford.rs", "bellman_ford_initialize_relax"),
                 ("algo/matching.rs", "greedy_matching_inner"), ("algo/coloring.rs", "dsatur_coloring"),
                 ("algo/articulation_points.rs", "articulation_points"), ("algo/page_rank.rs", "page_rank"),
                 ("algo/floyd_warshall.rs", "floyd_warshall"),
                 ("algo/mod.rs", "connected_components"), ("algo/mod.rs", "is_cyclic_undirected"),
                 ("algo/min_spanning_tree.rs", "min_spanning_tree"), ("algo/isomorphism.rs", "new")]
-    seen = {(r[0], r[1]) for r in rows}
-    for e in expected:
-        if e not in seen:
-            problems.append("no scratch container recognised any more in %s::%s" % e)
-    # … and the particular containers (a union-find / a Vf2State vector that is no longer seen is a blind spot)
-    expected_vars = [("algo/mod.rs", "connected_components", "vertex_sets (UnionFind)"),
-                     ("algo/mod.rs", "is_cyclic_undirected", "edge_sets (UnionFind)"),
-                     ("algo/min_spanning_tree.rs", "min_spanning_tree", "subgraphs (UnionFind)"),
-                     ("algo/isomorphism.rs", "new", "field mapping"), ("algo/isomorphism.rs", "new", "field out"),
-                     ("algo/isomorphism.rs", "new", "field ins")]
-    seen3 = {(r[0], r[1], r[2]): r for r in rows}
-    for e in expected_vars:
-        if e not in seen3:
-            problems.append("scratch container `%s` of %s::%s not recognised any more" % (e[2], e[0], e[1]))
-        elif not seen3[e][4]:
-            problems.append("scratch container `%s` of %s::%s: its indexing through to_index is not recognised any more" % (e[2], e[0], e[1]))
+# … and the particular kinds of container (a union-find / a Vf2State vector that is no longer seen is a blind spot);
+# by kind and number, not by name: renaming a local or a field is harmless
+EXPECTED_KINDS = [("algo/mod.rs", "connected_components", "(UnionFind)", 1), ("algo/mod.rs", "is_cyclic_undirected", "(UnionFind)", 1),
+                  ("algo/min_spanning_tree.rs", "min_spanning_tree", "(UnionFind)", 1), ("algo/isomorphism.rs", "new", "field ", 3)]
+
+def row_text(r):
+    a, b, c, d, e, g = r
+    return '  ⟨"%s", "%s", "%s", .%s, %s, %s⟩' % (a, b, c.replace('"', "'"), d, "true" if e else "false", "true" if g else "false")
+
+def main():
+    wb = "--write-baseline" in sys.argv[1:]
+    T = Tie("extract", wb)
+    order, rows_by, shape, broken, sites, nfuncs = scan()
+    for key in EXPECTED_FNS:
+        if key not in rows_by and key not in shape:
+            broken.append("no scratch container recognised any more in %s::%s" % key)
+    for rel, fn, tag, n in EXPECTED_KINDS:
+        key = (rel, fn)
+        have = [r for r in rows_by.get(key, []) if tag in r[2]]
+        if key in shape:
+            continue
+        if len(have) < n:
+            broken.append("%s::%s: %d scratch container(s) `%s…` expected, %d recognised" % (rel, fn, n, tag.strip(), len(have)))
+        elif not all(r[4] for r in have):
+            shape.setdefault(key, []).append("the indexing of a `%s` container through to_index is not recognised any more" % tag.strip())
+    # items: every function that has rows now, or had rows when the baseline was recorded
+    keys = list(order)
+    for name in sorted(T.base):
+        if name.startswith("scratch."):
+            rel, fn = name[len("scratch."):].split("::", 1)
+            if (rel, fn) not in keys:
+                keys.append((rel, fn))
+    texts = []
+    for key in keys:
+        name = "scratch.%s::%s" % key
+        def thunk(key=key, name=name):
+            if key in shape:
+                base = T.base.get(name)
+                m = re.search(r"-- (\d+) allocation sites", base or "")
+                if m and int(m.group(1)) != sites.get(key, 0):
+                    raise Broken("%s; and the number of allocation sites in the function changed (%s -> %d), so the recorded rows cannot stand in"
+                                 % ("; ".join(shape[key]), m.group(1), sites.get(key, 0)))
+                raise Unrecognised("; ".join(shape[key]))
+            rows = rows_by.get(key, [])
+            if not rows and key not in sites:
+                raise Broken("function %s::%s, which owned scratch containers, does not exist any more" % key)
+            return "  -- %d allocation sites in %s::%s\n" % (sites.get(key, 0), key[0], key[1]) + ",\n".join(row_text(r) for r in rows)
+        before = len(T.items)
+        # the third field of a row is the name of the local / field: informative only
+        anon = lambda txt: re.sub(r'(⟨"[^"]*", "[^"]*", )"(?:field )?[^"(<]*', r'\1"', txt)
+        t = T.item(name, ["C07"], "src/%s:%s" % key, thunk, flag="scratch_" + re.sub(r"\W", "_", "%s__%s" % key),
+                   same=lambda a, b: anon(a) == anon(b))
+        it = T.items[before]
+        if it["status"] == "broken":
+            broken.append("%s: %s" % (name, it["detail"]))
+            continue
+        texts.append(t)
+    # assemble: comment lines stay in front of their rows, commas only between rows
+    out_rows = []
+    for t in texts:
+        lines = t.split("\n")
+        out_rows.append(lines)
+    flat = []
+    for lines in out_rows:
+        for l in lines:
+            flat.append(l)
+    # add separators: a row line is followed by "," iff another row line comes later
+    row_idx = [i for i, l in enumerate(flat) if l.lstrip().startswith("⟨")]
+    for i in row_idx[:-1]:
+        flat[i] = flat[i].rstrip(",") + ","
+    if row_idx:
+        flat[row_idx[-1]] = flat[row_idx[-1]].rstrip(",")
+    nrows = len(row_idx)
     os.makedirs(OUT, exist_ok=True)
-    with open(os.path.join(OUT, "Scratch.lean"), "w") as f:
-        f.write("/- GENERATED by tools/extract.py from %s/src on every run — do not edit. -/\n" % REPO)
-        f.write("namespace PetgraphModel.Extracted\n\n")
-        f.write("inductive SizeSrc where | nodeCount | nodeBound | edgeCount | edgeBound | sizeHint\n  deriving Repr, DecidableEq\n\n")
-        f.write("structure ScratchUse where\n  file : String\n  fn : String\n  var : String\n  size : SizeSrc\n  indexedByToIndex : Bool\n  compactOnly : Bool\n  deriving Repr, DecidableEq\n\n")
-        f.write("def scratchTable : List ScratchUse := [\n")
-        f.write(",\n".join('  ⟨"%s", "%s", "%s", .%s, %s, %s⟩' % (a, b, c.replace('"', "'"), d, "true" if e else "false", "true" if g else "false")
-                           for a, b, c, d, e, g in rows))
-        f.write("\n]\n\n")
-        f.write("def extractionProblems : List String := [%s]\n\n" % ", ".join('"%s"' % p.replace('"', "'") for p in problems))
-        f.write("end PetgraphModel.Extracted\n")
+    scratch = []
+    scratch.append("/- GENERATED by tools/extract.py from %s/src on every run — do not edit. -/\n" % "/repo")
+    scratch.append("namespace PetgraphModel.Extracted\n\n")
+    scratch.append("inductive SizeSrc where | nodeCount | nodeBound | edgeCount | edgeBound | sizeHint\n  deriving Repr, DecidableEq\n\n")
+    scratch.append("structure ScratchUse where\n  file : String\n  fn : String\n  var : String\n  size : SizeSrc\n  indexedByToIndex : Bool\n  compactOnly : Bool\n  deriving Repr, DecidableEq\n\n")
+    scratch.append("def scratchTable : List ScratchUse := [\n")
+    scratch.append("\n".join(flat))
+    scratch.append("\n]\n\n")
+    scratch.append("/-- fail-closed conditions (not shape problems): must be empty -/\n")
+    scratch.append("def extractionProblems : List String := [%s]\n\n" % ", ".join('"%s"' % p.replace('"', "'").replace("\\", "/") for p in broken))
+    scratch.append("/-- functions whose containers were not recognised in this run (their rows above are the recorded baseline; the tie\nrests on the correspondence check, DESIGN.md Appendix E) -/\n")
+    scratch.append("def unrecognisedScratch : List String := [%s]\n\n" % ", ".join('"%s"' % it["item"] for it in T.items if it["status"] == "unrecognised"))
+    scratch.append("end PetgraphModel.Extracted\n")
+    scratch_text = "".join(scratch)
     # Csr.lean — the binary-search cut-off of Csr::find_edge_pos
-    csr = open(os.path.join(REPO, "src", "csr.rs")).read()
-    m = re.search(r"const\s+BINARY_SEARCH_CUTOFF\s*:\s*usize\s*=\s*(\d+)\s*;", csr)
-    if not m:
-        problems.append("csr.rs: BINARY_SEARCH_CUTOFF not recognised")
-    with open(os.path.join(OUT, "Csr.lean"), "w") as f:
-        f.write("/- GENERATED by tools/extract.py from %s/src/csr.rs on every run — do not edit.\n" % REPO)
-        f.write("   `const BINARY_SEARCH_CUTOFF: usize`.  No C05 theorem depends on the value (`C05_find_pos` proves both\n")
-        f.write("   search branches equal on every strictly ascending slice); the driver uses it to run the same branch as the code. -/\n")
-        f.write("namespace PetgraphModel.Extracted.Csr\n\ndef cutoff : Nat := %s\n\nend PetgraphModel.Extracted.Csr\n" % (m.group(1) if m else "0"))
-    print("extract: %d functions scanned, %d scratch uses, %d problems" % (nfuncs, len(rows), len(problems)))
-    for p in problems:
+    def cutoff():
+        try:
+            csr = open(os.path.join(REPO, "src", "csr.rs")).read()
+        except OSError as e:
+            raise Broken("cannot read src/csr.rs: %s" % e)
+        m = re.search(r"const\s+BINARY_SEARCH_CUTOFF\s*:\s*usize\s*=\s*(\d[\d_]*)\s*;", csr)
+        if not m:
+            raise Unrecognised("`const BINARY_SEARCH_CUTOFF: usize = <int>;` not found")
+        return "def cutoff : Nat := %d\n" % int(m.group(1).replace("_", ""))
+    ct = T.item("csr.cutoff", ["C05"], "src/csr.rs:BINARY_SEARCH_CUTOFF", cutoff, flag="cutoff")
+    csr_text = ("/- GENERATED by tools/extract.py from /repo/src/csr.rs on every run — do not edit.\n"
+                "   `const BINARY_SEARCH_CUTOFF: usize`.  No C05 theorem depends on the value (`C05_find_pos` proves both\n"
+                "   search branches equal on every strictly ascending slice); the driver uses it to run the same branch as the code. -/\n"
+                "namespace PetgraphModel.Extracted.Csr\n\n" + ct + "\ndef recognised_cutoff : Bool := %s\n\nend PetgraphModel.Extracted.Csr\n"
+                % ("true" if T.items[-1]["status"] in ("recognised", "changed") else "false"))
+    old = open(os.path.join(OUT, "Csr.lean")).read() if os.path.exists(os.path.join(OUT, "Csr.lean")) else None
+    if old != csr_text:
+        with open(os.path.join(OUT, "Csr.lean"), "w") as f:
+            f.write(csr_text)
+    print("extract: %d functions scanned, %d scratch uses, %d problems" % (nfuncs, nrows, len(broken)))
+    for p in broken:
         print("  PROBLEM:", p)
-    # per-property extractors written by the vertical builders (same contract: regenerate, fail closed)
+    # T.finish writes Scratch.lean (only when it changed, so that lake does not rebuild for nothing), prints the outcomes
+    import io, contextlib
+    buf = io.StringIO()
+    with contextlib.redirect_stdout(buf):
+        rc = T.finish(os.path.join(OUT, "Scratch.lean"), scratch_text)
+    own = buf.getvalue()
+    sys.stdout.write("\n".join(l for l in own.splitlines() if not l.startswith("@status ")) + "\n")
+    status = parse_status_lines(own)
+    rc = 1 if (broken or rc) else 0
+    # per-property extractors written by the vertical builders (same contract)
     import subprocess
-    rc = 0
     for extra in sorted(glob.glob(os.path.join(ROOT, "tools", "extract_*.py"))):
         args = (["--src", os.path.join(REPO, "src", "matrix_graph.rs")] if extra.endswith("extract_matrix.py")
                 else [REPO] if extra.endswith("extract_c06.py") else ["--repo", REPO])
+        if wb:
+            args.append("--write-baseline")
         r = subprocess.run([sys.executable, extra] + args, stdout=subprocess.PIPE, stderr=subprocess.STDOUT, text=True)
-        print(r.stdout.strip())
+        print("\n".join(l for l in r.stdout.strip().splitlines() if not l.startswith("@status ")))
+        st = parse_status_lines(r.stdout)
+        if r.returncode not in (0, 1) or (not st):
+            # the extractor itself crashed: fail closed
+            status.append({"item": os.path.basename(extra), "props": ["C04", "C05", "C06", "C07", "C18"], "where": extra,
+                           "status": "broken", "detail": "extractor crashed: " + r.stdout.strip()[-300:]})
+            print("%s: tie broken: extractor crashed (rc=%s)" % (os.path.basename(extra), r.returncode))
+            rc = 1
+        status += st
         rc = rc or r.returncode
-    sys.exit(1 if (problems or rc) else 0)
+    os.makedirs(os.path.join(ROOT, "work"), exist_ok=True)
+    with open(os.path.join(ROOT, "work", "extract_status.json"), "w") as f:
+        json.dump({x["item"]: {k: x[k] for k in ("status", "where", "props", "detail")} for x in status}, f, indent=1, ensure_ascii=False)
+    n = {}
+    for x in status:
+        n[x["status"]] = n.get(x["status"], 0) + 1
+    print("extract: items " + ", ".join("%d %s" % (v, k) for k, v in sorted(n.items())) + " -> work/extract_status.json")
+    sys.exit(1 if rc else 0)
 
 if __name__ == "__main__":
     main()
